@@ -325,3 +325,25 @@ package implementation
 //@   requires info != nil && info.WeightedAmount != nil
 //@   ensures result != nil && fresh(result)
 //@   modifies nothing
+
+// ======================================================================================================================
+// Property C17: a spork's enforcement height is fixed ONCE, by its single activation, at (frontier height + the minimum delay);
+// nothing moves it afterwards and a created spork starts inactive with height 0.
+//@ func CreateSporkMethod.ReceiveBlock(p, context, sendBlock) -> (descendants, err)
+//@   requires p != nil && sendBlock != nil && sendBlock.Amount != nil
+//@   ensures[no-payment] len(descendants) == 0
+//@   ensures[only-the-spork-keys] err == nil ==> sendBlock.Address == deref(types.SporkAddress) || sendBlock.Address == types.CommunitySporkAddress
+//@   ensures[starts-inactive] err == nil ==> stg(context).sporkHas[sendBlock.Hash] && !stg(context).sporkActivated[sendBlock.Hash] && stg(context).sporkHeight[sendBlock.Hash] == 0
+//@   ensures[only-its-own-entry] err == nil ==> (forall i arr :: i != sendBlock.Hash ==> stg(context).sporkActivated[i] == old(stg(context).sporkActivated)[i] && stg(context).sporkHeight[i] == old(stg(context).sporkHeight)[i] && stg(context).sporkHas[i] == old(stg(context).sporkHas)[i])
+//@   ensures[nothing-on-error] err != nil ==> stg(context).sporkActivated == old(stg(context).sporkActivated) && stg(context).sporkHeight == old(stg(context).sporkHeight) && stg(context).sporkHas == old(stg(context).sporkHas)
+//@   modifies sendBlock.Data, MF:common/db.DB.spork*
+
+//@ func ActivateSporkMethod.ReceiveBlock(p, context, sendBlock) -> (descendants, err)
+//@   requires p != nil && sendBlock != nil && sendBlock.Amount != nil
+//@   ensures[no-payment] len(descendants) == 0
+//@   ensures[only-the-spork-keys] err == nil ==> sendBlock.Address == deref(types.SporkAddress) || sendBlock.Address == types.CommunitySporkAddress
+//@   ensures-local[only-an-existing-not-yet-activated-spork] err == nil ==> old(stg(context).sporkHas)[deref(id)] && !old(stg(context).sporkActivated)[deref(id)]
+//@   ensures-local[height-fixed-at-activation] err == nil && context.height + constants.SporkMinHeightDelay < pow2(64) ==> stg(context).sporkActivated == store(old(stg(context).sporkActivated), deref(id), true) && stg(context).sporkHeight == store(old(stg(context).sporkHeight), deref(id), context.height + constants.SporkMinHeightDelay)
+//@   ensures[an-activated-spork-is-never-touched-again] forall i arr :: old(stg(context).sporkActivated)[i] ==> stg(context).sporkActivated[i] && stg(context).sporkHeight[i] == old(stg(context).sporkHeight)[i]
+//@   ensures[nothing-on-error] err != nil ==> stg(context).sporkActivated == old(stg(context).sporkActivated) && stg(context).sporkHeight == old(stg(context).sporkHeight)
+//@   modifies sendBlock.Data, MF:common/db.DB.spork*
